@@ -267,7 +267,7 @@ pub fn run(tier: Tier, seed: u64) -> Report {
     let r = run_pbt(
         "live-points",
         seed,
-        tier.pick(5_000, 300_000),
+        tier.pick(50_000, 1_500_000),
         || (super::c01::src_strategy(gen::DEFAULT_POINT_WEIGHTS, 2), 0i32..=29).boxed(),
         |(src, res), st| check_live_point(src, *res, st),
         |(src, res)| json!({"src": super::c01::src_json(src), "res": res}),
@@ -275,7 +275,7 @@ pub fn run(tier: Tier, seed: u64) -> Report {
     if !rep.absorb("live-points", r) {
         return rep;
     }
-    let r = run_pbt("live-ids", seed, tier.pick(3_000, 150_000), || super::c04::picks(0, 29, 4), check_live_id, super::c04::pick_json);
+    let r = run_pbt("live-ids", seed, tier.pick(30_000, 800_000), || super::c04::picks(0, 29, 4), check_live_id, super::c04::pick_json);
     rep.absorb("live-ids", r);
     let tb = rep.stats.hist.keys().filter(|k| k.starts_with("table:bucket:")).count();
     let lb = rep.stats.hist.keys().filter(|k| k.starts_with("live:bucket:")).count();
